@@ -20,6 +20,7 @@
 #include <jose/openssl.h>
 
 #include <string.h>
+#include <limits.h>
 
 /* The following functions are from OpenSSL 3 code base:
  * - bn_is_three()
@@ -56,14 +57,17 @@ mkrsa(const json_t *jwk)
     openssl_auto(BIGNUM) *bn = NULL;
     json_auto_t *exp = NULL;
     RSA *key = NULL;
-    int bits = 2048;
+    json_int_t size = 2048;
+    int bits = 0;
 
-    if (json_unpack((json_t *) jwk, "{s?i,s?O}",
-                    "bits", &bits, "e", &exp) == -1)
+    if (json_unpack((json_t *) jwk, "{s?I,s?O}",
+                    "bits", &size, "e", &exp) == -1)
         return NULL;
 
-    if (bits < 2048)
+    if (size < 2048 || size > INT_MAX)
         return NULL;
+
+    bits = size;
 
     if (!exp)
         exp = json_integer(65537);
